@@ -24,6 +24,8 @@ pub struct Ctx {
     pub bins: String,
     pub scratch: String,
     sigs_seen: BTreeMap<String, usize>,
+    /// C18 mode: only violations of unchecked-code preconditions count (see `violation`).
+    pub safety_only: bool,
 }
 
 thread_local! {
@@ -86,6 +88,7 @@ impl Ctx {
             bins: String::new(),
             scratch: String::new(),
             sigs_seen: BTreeMap::new(),
+            safety_only: false,
         }
     }
 
@@ -145,6 +148,24 @@ impl Ctx {
     }
 
     pub fn violation(&mut self, sig: &str, detail: J) {
+        let mut sig = sig.to_string();
+        if self.safety_only {
+            // The unsafe-surface workload re-uses the behavioural monitors; under C18 only failed
+            // debug assertions guarding unchecked code, failed UB-precondition checks and invalid
+            // UTF-8 count. Everything else belongs to the property whose monitor raised it.
+            let panic = detail.get("panic").and_then(|p| p.as_str()).unwrap_or("");
+            let safety = sig.contains("utf8")
+                || panic.contains("assertion failed")
+                || panic.contains("unsafe precondition")
+                || panic.contains("is_char_boundary");
+            if !safety {
+                self.count("behavioural_violations_left_to_their_own_property", 1);
+                return;
+            }
+            let rest = sig.split_once(':').map(|x| x.1.to_string()).unwrap_or(sig.clone());
+            sig = format!("C18:{rest}");
+        }
+        let sig = sig.as_str();
         let n = self.sigs_seen.entry(sig.to_string()).or_insert(0);
         *n += 1;
         if *n > 3 {
